@@ -308,6 +308,57 @@ pub fn history(rng: &mut Rng, max_ops: usize) -> History {
     History { tree: Program::single(stmts), ops, copy_then_mutate, terminal_error }
 }
 
+/// Read-your-writes at a fractional index. The statement does not say which slot `xs at 3.5` is, so the
+/// reference model leaves such programs open - but whichever slot it is, a value written there is the value
+/// read back from there (or the write itself is refused with a runtime error).
+fn fractional_index_case(ctx: &mut Ctx, rng: &mut Rng) {
+    use crate::mon::{self, ExecOpts, ExecOutcome};
+    let n = rng.below(5);
+    let k = rng.below(6);
+    let frac = *rng.pick(&["25", "5", "75", "999", "001", "5000001", "4999999"]);
+    let idx = format!("{}.{}", k, frac);
+    let mut src = String::new();
+    if n > 0 {
+        src.push_str(&format!("rock Xs with {}\n", (0..n).map(|i| format!("{}", 10 * (i + 1))).collect::<Vec<_>>().join(", ")));
+    }
+    let form = rng.below(4);
+    match form {
+        0 => src.push_str(&format!("let Xs at {i} be 77\nsay \"w\"\nsay Xs at {i}\n", i = idx)),
+        1 => src.push_str(&format!("put {i} into Index\nlet Xs at Index be 77\nsay \"w\"\nsay Xs at Index\n", i = idx)),
+        2 => src.push_str(&format!("rock Ys with 1, 2\nlet Xs at {i} be Ys\nlet Xs at {i} at 1.5 be 77\nsay \"w\"\nsay Xs at {i} at 1.5\n", i = idx)),
+        _ => src.push_str(&format!("let Xs at {i} be 70\nlet Xs at {i} be with 7\nsay \"w\"\nsay Xs at {i}\n", i = idx)),
+    }
+    let case = || Json::obj().with("src", Json::s(&src));
+    let prog = match mon::parse_quiet(&src) {
+        Ok(p) => p,
+        Err(e) => {
+            ctx.violation("fractional_index:parse_error", &e, case());
+            return;
+        }
+    };
+    ctx.eval();
+    let opts = ExecOpts { fuel: 10_000, log_events: false, log_dict: false, trap: true };
+    match mon::exec_guarded(&prog, b"", &opts) {
+        ExecOutcome::Done(run) => {
+            ctx.sites.absorb();
+            let out = String::from_utf8_lossy(&run.stdout).to_string();
+            match (&run.result, out.as_str()) {
+                (Ok(()), "w\n77\n") => ctx.count("fractional_index_read_your_write_held"),
+                (Err(_), "") => ctx.count("fractional_index_write_refused"),
+                _ => ctx.violation(
+                    "fractional_index:value_written_is_not_the_value_read",
+                    &format!("index {}: stdout {:?}, result {:?} (expected \"w\\n77\\n\" and success, or a refused write)", idx, out, run.result),
+                    case(),
+                ),
+            }
+        }
+        ExecOutcome::Panicked(p, _) => {
+            ctx.sites.absorb();
+            ctx.panic_outcome("exec", &p, case());
+        }
+    }
+}
+
 pub fn run(ctx: &mut Ctx) {
     if ctx.miri {
         ctx.cases("miri", ctx.nshards as u64, |ctx, rng, _| {
@@ -316,6 +367,7 @@ pub fn run(ctx: &mut Ctx) {
         });
         return;
     }
+    ctx.cases("fractional_index", 3_000, |ctx, rng, _| fractional_index_case(ctx, rng));
     let n = ctx.size(12_000, 400_000);
     let max_ops = if ctx.is_quick() { 14 } else { 40 };
     ctx.cases("histories", n, |ctx, rng, _| {
